@@ -85,6 +85,7 @@ def evalWords {p : ℕ} (σ : Rep p K) (q : Json) : M? Json := do
   let simple := optBool q "evsimple"
   let vals ← ws.toList.mapM fun w => σ.wordValueS w simple
   pure (Json.mkObj [("gens", .arr (σ.gens.map (fun kv => Json.str kv.1)).toArray),
+                    ("rels", .arr (σ.relations.map fun r => Json.arr (r.map Json.str).toArray).toArray),
                     ("vals", .arr (vals.map (outMat io)).toArray)])
 
 def derived (n : ℕ) (ρ : Rep n K) (q : Json) : M? Json := do
